@@ -29,7 +29,9 @@ TOL = 1e-9
 
 def configs(tier, seed):
     out = []
-    for wt in ("restricted", "unrestricted"):
+    # restricted-open: restricted walker container with an open-shell (2,1) UHF trial (the beta determinant is the
+    # leading n_dn columns), the configuration in which "QR changes nothing for the cached overlap" is false
+    for wt in ("restricted", "unrestricted", "restricted-open"):
         for first in [(e, s) for e in ENTRIES for s in sorted(STRUCTS)]:
             out.append(dict(wt=wt, first=list(first), seed=seed, tier=tier))
     return out
@@ -64,15 +66,16 @@ def job(cfg):
     thorough = cfg["tier"] == "thorough"
     wt = cfg["wt"]
     n, na, nb = (3, 1, 1) if wt == "restricted" else (3, 2, 1)
+    container = "restricted" if wt.startswith("restricted") else "unrestricted"
     depth = 3 if thorough else 2
     D = 3 if thorough else 2
     n_draws = 8 * depth + 2
-    sysd = samplers.system(n, na, nb, 1, cfg["seed"], wt, scale=0.7)
+    sysd = samplers.system(n, na, nb, 1, cfg["seed"], "restricted" if wt == "restricted" else "unrestricted", scale=0.7)
     tabs, tu, S = tables(cfg["seed"], n_draws, D)
     vr = vrng.install(tabs, tu)
     L = samplers.lib()
     jnp = L["jnp"]
-    B = samplers.build(sysd, wt, NW, dt=DT, n_batch=1)
+    B = samplers.build(sysd, container, NW, dt=DT, n_batch=1, trial_kind=("uhf" if wt == "restricted-open" else None))
     samps = {k: L["sampling"].sampler(ns, ne, nsr, 1) for k, (ns, ne, nsr) in STRUCTS.items()}
     letters = [(e, s) for e in ENTRIES for s in sorted(STRUCTS)]
     first = tuple(cfg["first"])
@@ -110,8 +113,8 @@ def job(cfg):
                         res.violation("%s/%s/stale-overlap-read-by-propagate" % (entry, wt), dict(case, what="hook"),
                                       dict(max_rel_incoherence=incoh))
                     dw = np.abs(np.asarray(pd1["weights"]) - np.asarray(pr1["weights"])).max()
-                    wl = pd1["walkers"] if wt == "restricted" else pd1["walkers"][0]
-                    wr = pr1["walkers"] if wt == "restricted" else pr1["walkers"][0]
+                    wl = pd1["walkers"] if container == "restricted" else pd1["walkers"][0]
+                    wr = pr1["walkers"] if container == "restricted" else pr1["walkers"][0]
                     dwalk = np.abs(np.asarray(wl) - np.asarray(wr)).max()
                     if not (abs(e_lib - e_ref) <= TOL * max(1, abs(e_ref)) and dw <= TOL and dwalk <= 1e-8):
                         res.violation("%s/%s/differs-from-single-step-replay" % (entry, wt), dict(case, what="replay"),
@@ -120,7 +123,7 @@ def job(cfg):
                     wa_before = np.asarray(wl)
                     pd2 = samplers.library_glue(B, pd1, e_lib)
                     pr2 = samplers.explicit_glue(B, pr1, e_ref, tu, s)
-                    wl2 = pd2["walkers"] if wt == "restricted" else pd2["walkers"][0]
+                    wl2 = pd2["walkers"] if container == "restricted" else pd2["walkers"][0]
                     if np.abs(np.asarray(wl2) - wa_before).max() > 1e-6:
                         qr_nontrivial += 1
                     uniq = len({np.asarray(x).tobytes() for x in np.asarray(wl2)})
@@ -148,7 +151,7 @@ def job(cfg):
 def run(ctx):
     ctx.rule = ("words over the operation alphabet {plain, ad, ad_nosr, ad_norot, ad_nosr_norot} x block structure {(2,1,1),(1,2,2)}, each "
                 "letter followed by the driver glue (QR, global comb, e_estimate update), all words up to depth 2 (3 thorough), for "
-                "{restricted+rhf, unrestricted+uhf}, times every virtual-RNG stream over field letters {0,+-2.6} (dt=0.4 so that weights become uneven and combs duplicate walkers; odd streams start from uneven weights) on 2 (3) draw positions; "
+                "{restricted+rhf, unrestricted+uhf, restricted walkers + open-shell uhf}, times every virtual-RNG stream over field letters {0,+-2.6} (dt=0.4 so that weights become uneven and combs duplicate walkers; odd streams start from uneven weights) on 2 (3) draw positions; "
                 "a state = (word, stream); every transition runs the real sampler entry point and, in parallel, the single-public-step replay")
     ctx.assume("the hook records max_w |cached - recomputed|/|cached| at every propagate() entry (guarded, pre-seeded key carried through scan/checkpoint)")
     ctx.assume("converged SCF trial so that optimize() inside the AD entry points is the identity; zero coupling")
